@@ -13,11 +13,14 @@ import (
 
 const rootFolder = "root-folder"
 
-func genDashOp(t *rapid.T, names []string) storeOp {
-	k := rapid.IntRange(0, 99).Draw(t, "dashOp")
+func genDashOp(t *rapid.T, names []string, early bool) storeOp {
+	k := pct(t, "dashOp")
+	if early {
+		k = rapid.SampledFrom([]int{0, 40, 40}).Draw(t, "earlyOp") // folder.create | dash.create
+	}
 	ref := rapid.IntRange(0, 9).Draw(t, "ref")
 	parent := func() int { // -1 = root, otherwise a created folder
-		if rapid.IntRange(0, 2).Draw(t, "inRoot") == 0 {
+		if rapid.IntRange(0, 9).Draw(t, "inRoot") < 6 {
 			return -1
 		}
 		return rapid.IntRange(0, 9).Draw(t, "parent")
@@ -437,7 +440,7 @@ func (s *dashStore) verify(d *storeDriver) error {
 			var want map[string]interface{}
 			_ = json.Unmarshal([]byte(canon(it.doc)), &want)
 			if canon(doc) != canon(want) {
-				return d.violation("tenant %d: dashboard %s reads %.600s, last written %.600s", t, id, canon(doc), canon(want))
+				return d.violation("tenant %d: dashboard %s reads %.600s, last written %.600s", t, id, brief(doc), brief(want))
 			}
 			pnames, pids := s.path(t, id, false)
 			wantFolderName := "Root"
@@ -447,7 +450,7 @@ func (s *dashStore) verify(d *storeDriver) error {
 				}
 			}
 			if folder == nil || folder["id"] != it.parent || folder["name"] != wantFolderName || folder["path"] != strings.Join(pnames, "/") {
-				return d.violation("tenant %d: dashboard %s reports folder %s, it is in folder %s (name %s, path %s)", t, id, canon(folder), it.parent, short(wantFolderName), short(strings.Join(pnames, "/")))
+				return d.violation("tenant %d: dashboard %s reports folder %s, it is in folder %s (name %s, path %s)", t, id, brief(folder), it.parent, short(wantFolderName), short(strings.Join(pnames, "/")))
 			}
 			var bc []interface{}
 			bc = append(bc, map[string]interface{}{"id": rootFolder, "name": "Root"})
@@ -455,7 +458,7 @@ func (s *dashStore) verify(d *storeDriver) error {
 				bc = append(bc, map[string]interface{}{"id": pids[i], "name": pnames[i]})
 			}
 			if canon(folder["breadcrumbs"]) != canon(bc) {
-				return d.violation("tenant %d: dashboard %s reports breadcrumbs %s, expected %s", t, id, canon(folder["breadcrumbs"]), canon(bc))
+				return d.violation("tenant %d: dashboard %s reports breadcrumbs %s, expected %s", t, id, brief(folder["breadcrumbs"]), brief(bc))
 			}
 		}
 		// 3. every folder's content
@@ -512,7 +515,7 @@ func (s *dashStore) verify(d *storeDriver) error {
 				}
 			}
 			if canon(got) != canon(want) {
-				return d.violation("tenant %d: folder %s (%s) contains %.500s, expected %.500s", t, fid, short(wantName), canon(got), canon(want))
+				return d.violation("tenant %d: folder %s (%s) contains %.500s, expected %.500s", t, fid, short(wantName), brief(got), brief(want))
 			}
 		}
 		// 4. deleted dashboards must not be readable any more
